@@ -22,27 +22,37 @@ def sh(cmd, cwd=None, timeout=3600):
 
 meta = {'property': pid, 'change': k, 'ran': []}
 assert sh('git -C %s status --porcelain --untracked-files=no' % wt)[1].strip() == '', 'worktree not clean'
-rc0, _ = sh('/venv/bin/python _out/%s/demo.py' % k, cwd=wt)
-rc, out = sh('git -C %s apply --check %s/patch.diff && git -C %s apply %s/patch.diff' % (wt, src, wt, src))
-assert rc == 0, 'patch does not apply: ' + out
-rc1, demo_out = sh('/venv/bin/python _out/%s/demo.py' % k, cwd=wt)
-meta['demo_exit_clean'], meta['demo_exit_patched'] = rc0, rc1
-meta['ran'].append('cd %s && /venv/bin/python _out/%s/demo.py  (clean: %d, patched: %d)' % (wt, k, rc0, rc1))
-suite = 'skipped'
-if not skip_suite:
-    rcs, outs = sh('/verif/tools/baseline.py %s' % wt)
-    suite = 'pass' if rcs == 0 else 'FAIL: ' + outs[-400:]
-    meta['ran'].append('/verif/tools/baseline.py %s -> %s' % (wt, outs.strip().split('\n')[0]))
-if skip_suite:
-    # re-evaluation after the checks were strengthened: the suite verdict of the first evaluation stands (same patch)
-    try:
-        prev = json.load(open('/verif/seeded/%s-%s/meta.json' % (pid, k)))
-        if prev.get('suite_with_patch') == 'pass':
-            suite = 'pass'
-            meta['ran'] += [r for r in prev.get('ran', []) if 'baseline.py' in r]
-    except OSError:
-        pass
-meta['suite_with_patch'] = suite
+if os.path.exists(src + '/phaseA.json'):
+    # steps 1-2 were done by tools/seedphaseA.py (same commands, run in parallel per worktree)
+    pa = json.load(open(src + '/phaseA.json'))
+    assert 'error' not in pa, pa
+    rc0, rc1, suite = pa['demo_exit_clean'], pa['demo_exit_patched'], pa['suite']
+    meta['demo_exit_clean'], meta['demo_exit_patched'] = rc0, rc1
+    meta['ran'].append('cd %s && /venv/bin/python _out/%s/demo.py  (clean: %d, patched: %d)' % (wt, k, rc0, rc1))
+    meta['ran'].append('/verif/tools/baseline.py %s -> %s' % (wt, pa['suite_line']))
+    meta['suite_with_patch'] = suite
+else:
+    rc0, _ = sh('/venv/bin/python _out/%s/demo.py' % k, cwd=wt)
+    rc, out = sh('git -C %s apply --check %s/patch.diff && git -C %s apply %s/patch.diff' % (wt, src, wt, src))
+    assert rc == 0, 'patch does not apply: ' + out
+    rc1, demo_out = sh('/venv/bin/python _out/%s/demo.py' % k, cwd=wt)
+    meta['demo_exit_clean'], meta['demo_exit_patched'] = rc0, rc1
+    meta['ran'].append('cd %s && /venv/bin/python _out/%s/demo.py  (clean: %d, patched: %d)' % (wt, k, rc0, rc1))
+    suite = 'skipped'
+    if not skip_suite:
+        rcs, outs = sh('/verif/tools/baseline.py %s' % wt)
+        suite = 'pass' if rcs == 0 else 'FAIL: ' + outs[-400:]
+        meta['ran'].append('/verif/tools/baseline.py %s -> %s' % (wt, outs.strip().split('\n')[0]))
+    if skip_suite:
+        # re-evaluation after the checks were strengthened: the suite verdict of the first evaluation stands (same patch)
+        try:
+            prev = json.load(open('/verif/seeded/%s-%s/meta.json' % (pid, k)))
+            if prev.get('suite_with_patch') == 'pass':
+                suite = 'pass'
+                meta['ran'] += [r for r in prev.get('ran', []) if 'baseline.py' in r]
+        except OSError:
+            pass
+    meta['suite_with_patch'] = suite
 sh('git -C %s checkout -- pyerrors' % wt)
 # run our checks against /repo with the patch
 assert sh('git -C /repo status --porcelain --untracked-files=no')[1].strip() == '', '/repo not clean'
